@@ -3,10 +3,11 @@
 # Final confirmation as the brief describes: git -C /repo apply <patch>, run the target property's
 # quick check, git -C /repo checkout -- . ; the outcome is recorded in meta.json.
 cd /verif || exit 3
-ids="$*"; [ -z "$ids" ] && ids=$(ls seeded)
+S=${SEEDED_DIR:-/verif/seeded}
+ids="$*"; [ -z "$ids" ] && ids=$(ls $S)
 export VERIF_EVIDENCE_DIR=/tmp/confirm-evidence
 for id in $ids; do
-  d=/verif/seeded/$id; prop=$(python3 -c "import json;print(json.load(open('$d/meta.json'))['breaks_property'])")
+  d=$S/$id; prop=$(python3 -c "import json;print(json.load(open('$d/meta.json'))['breaks_property'])")
   if [ -n "$(git -C /repo status --porcelain --untracked-files=no)" ]; then echo "/repo not clean"; exit 3; fi
   patch=$d/patch.diff
   if ! git -C /repo apply --check $patch 2>/dev/null; then
